@@ -19,6 +19,8 @@ import (
 
 	dbm "github.com/33cn/chain33/common/db"
 	"github.com/33cn/chain33/common/log/log15"
+	"github.com/33cn/chain33/queue"
+	drivers "github.com/33cn/chain33/system/store"
 	mavlstore "github.com/33cn/chain33/system/store/mavl"
 	mavldb "github.com/33cn/chain33/system/store/mavl/db"
 	"github.com/33cn/chain33/system/store/mavl/db/ticket"
@@ -169,14 +171,30 @@ type Node struct {
 	Cfg      Config
 	Store    *mavlstore.Store
 	Restarts int
+	// UseQueue: the store runs as a module on a real queue (BaseStore's message
+	// handlers, one goroutine per request). Must then live inside a bubble.
+	UseQueue bool
+	Q        queue.Queue
+	Shim     *GuardChild
+	// dead holds the process-side objects of crashed processes; they are shut down
+	// quietly when the node is destroyed so their goroutines do not accumulate.
+	dead []deadProc
+}
+
+type deadProc struct {
+	store *mavlstore.Store
+	q     queue.Queue
 }
 
 // NewNode creates an empty disk and starts a store process over it. Process
 // globals of mavl/db are reset first: a node is a fresh process.
-func NewNode(tag string, cfg Config) *Node {
+func NewNode(tag string, cfg Config) *Node { return NewNodeOpts(tag, cfg, false) }
+
+// NewNodeOpts is NewNode with the choice of running the store on a real queue.
+func NewNodeOpts(tag string, cfg Config, useQueue bool) *Node {
 	Quiet()
 	id := fmt.Sprintf("storesim-%s-%d", tag, atomic.AddUint64(&diskSeq, 1))
-	n := &Node{ID: id, Disk: simdb.NewDisk(id), Cfg: cfg}
+	n := &Node{ID: id, Disk: simdb.NewDisk(id), Cfg: cfg, UseQueue: useQueue}
 	registerSmallCache()
 	scMu.Lock()
 	scDisks[id] = n.Disk
@@ -198,6 +216,123 @@ func (n *Node) open() {
 		simrt.Failf("mavl.New returned %T", m)
 	}
 	n.Store = st
+	if n.UseQueue {
+		n.Q = queue.New("storesim")
+		n.Shim = &GuardChild{inner: st}
+		st.SetChild(n.Shim)
+		st.SetQueueClient(n.Q.Client())
+	}
+}
+
+// GuardChild sits between BaseStore's message handlers and the mavl Store. Every
+// handler runs in its own goroutine; a panic there would end the process (and
+// with it the simulation worker). The shim turns such a panic into a recorded
+// event - "the store process would have died here" - and an error reply.
+type GuardChild struct {
+	inner  *mavlstore.Store
+	mu     sync.Mutex
+	Panics []HandlerPanic
+}
+
+// HandlerPanic is one recovered panic of a request handler.
+type HandlerPanic struct {
+	Op  string
+	Val string
+}
+
+var errHandlerPanicked = fmt.Errorf("storesim: handler panicked")
+
+func (g *GuardChild) guard(op string, f func()) (panicked bool) {
+	if p := Guard(f); p != nil {
+		g.mu.Lock()
+		g.Panics = append(g.Panics, HandlerPanic{Op: op, Val: fmt.Sprint(p)})
+		g.mu.Unlock()
+		return true
+	}
+	return false
+}
+
+// TakePanics returns and clears the recorded handler panics.
+func (g *GuardChild) TakePanics() []HandlerPanic {
+	g.mu.Lock()
+	defer g.mu.Unlock()
+	p := g.Panics
+	g.Panics = nil
+	return p
+}
+
+var _ drivers.SubStore = (*GuardChild)(nil)
+
+// Set implements SubStore.
+func (g *GuardChild) Set(d *types.StoreSet, sync bool) (h []byte, err error) {
+	if g.guard("Set", func() { h, err = g.inner.Set(d, sync) }) {
+		return nil, errHandlerPanicked
+	}
+	return
+}
+
+// Get implements SubStore.
+func (g *GuardChild) Get(d *types.StoreGet) (v [][]byte) {
+	if g.guard("Get", func() { v = g.inner.Get(d) }) {
+		return make([][]byte, len(d.Keys))
+	}
+	return
+}
+
+// MemSet implements SubStore.
+func (g *GuardChild) MemSet(d *types.StoreSet, sync bool) (h []byte, err error) {
+	if g.guard("MemSet", func() { h, err = g.inner.MemSet(d, sync) }) {
+		return nil, errHandlerPanicked
+	}
+	return
+}
+
+// Commit implements SubStore.
+func (g *GuardChild) Commit(r *types.ReqHash) (h []byte, err error) {
+	if g.guard("Commit", func() { h, err = g.inner.Commit(r) }) {
+		return nil, errHandlerPanicked
+	}
+	return
+}
+
+// Rollback implements SubStore.
+func (g *GuardChild) Rollback(r *types.ReqHash) (h []byte, err error) {
+	if g.guard("Rollback", func() { h, err = g.inner.Rollback(r) }) {
+		return nil, errHandlerPanicked
+	}
+	return
+}
+
+// Del implements SubStore.
+func (g *GuardChild) Del(r *types.StoreDel) ([]byte, error) { return g.inner.Del(r) }
+
+// IterateRangeByStateHash implements SubStore.
+func (g *GuardChild) IterateRangeByStateHash(statehash, start, end []byte, ascending bool, fn func(key, value []byte) bool) {
+	g.guard("IterateRangeByStateHash", func() { g.inner.IterateRangeByStateHash(statehash, start, end, ascending, fn) })
+}
+
+// ProcEvent implements SubStore.
+func (g *GuardChild) ProcEvent(msg *queue.Message) { g.inner.ProcEvent(msg) }
+
+// MemSetUpgrade implements SubStore.
+func (g *GuardChild) MemSetUpgrade(d *types.StoreSet, sync bool) ([]byte, error) {
+	return g.inner.MemSetUpgrade(d, sync)
+}
+
+// CommitUpgrade implements SubStore.
+func (g *GuardChild) CommitUpgrade(r *types.ReqHash) ([]byte, error) { return g.inner.CommitUpgrade(r) }
+
+// Call sends one request to the store module over the queue and waits for the reply.
+func (n *Node) Call(c queue.Client, ty int64, data interface{}) (interface{}, error) {
+	msg := c.NewMessage("store", ty, data)
+	if err := c.Send(msg, true); err != nil {
+		return nil, err
+	}
+	resp, err := c.Wait(msg)
+	if err != nil {
+		return nil, err
+	}
+	return resp.GetData(), nil
 }
 
 // DB is the store's database handle.
@@ -210,6 +345,10 @@ func (n *Node) TreeCfg() *mavldb.TreeConfig { return n.Store.VerifTreeCfg() }
 // the same disk. All node caches and pending updates are gone.
 func (n *Node) Reopen() {
 	n.Store.Close()
+	if n.Q != nil {
+		n.Q.Close()
+		n.Q = nil
+	}
 	n.Store = nil
 	mavldb.VerifResetGlobals()
 	n.Restarts++
@@ -219,6 +358,10 @@ func (n *Node) Reopen() {
 // Crash is a process stop without Close: the process-side objects are dropped,
 // every completed disk write survives.
 func (n *Node) Crash() {
+	if n.UseQueue {
+		n.dead = append(n.dead, deadProc{n.Store, n.Q})
+		n.Q = nil
+	}
 	n.Store = nil
 	mavldb.VerifResetGlobals()
 	n.Restarts++
@@ -234,6 +377,19 @@ func (n *Node) Destroy() {
 		}()
 		n.Store = nil
 	}
+	if n.Q != nil {
+		n.Q.Close()
+		n.Q = nil
+	}
+	n.Disk.Hooks = simdb.Hooks{}
+	for _, d := range n.dead {
+		func() {
+			defer func() { _ = recover() }()
+			d.store.Close()
+			d.q.Close()
+		}()
+	}
+	n.dead = nil
 	mavldb.VerifResetGlobals()
 	n.Disk.Hooks = simdb.Hooks{}
 	n.Disk.Remove()
@@ -482,9 +638,9 @@ func (m *VModel) Roots() [][]byte { return m.order }
 
 // Read APIs.
 const (
-	APIStoreGet = iota // Store.Get(StoreGet)
-	APITreeGet         // mavl/db NewTree + Load + Tree.Get / Has
-	APIGetKVPair       // mavl/db GetKVPair
+	APIStoreGet  = iota // Store.Get(StoreGet)
+	APITreeGet          // mavl/db NewTree + Load + Tree.Get / Has
+	APIGetKVPair        // mavl/db GetKVPair
 )
 
 // Iteration APIs.
